@@ -26,6 +26,9 @@ func Profiles() map[string]Profile {
 	f := followerProfile()
 	f.Name = "follower"
 	m[f.Name] = f
+	nd := nodeProfile()
+	nd.Name = "node"
+	m[nd.Name] = nd
 	return m
 }
 
@@ -110,6 +113,19 @@ func followerProfile() Profile {
 	p.PDup, p.PLate, p.PDrop = 0.08, 0.06, 0.05
 	p.HoldSnapshot = 0.4
 	p.MinActions, p.MaxActions = 300, 2500
+	return p
+}
+
+// nodeProfile is E3 nodesim: every node is driven through the channel-based
+// raft.Node (node.go), whose run loop goroutine the simulator schedules.
+func nodeProfile() Profile {
+	p := DefaultProfile()
+	p.PNodeAPI = 1
+	p.WPropose, p.WBatch = 12, 2
+	p.WConf = 2
+	p.MinVoters = 1
+	p.PSmallLimits = 0.6
+	p.WTransfer = 1
 	return p
 }
 
@@ -209,11 +225,21 @@ func determinismProfile() Profile {
 // cheaper than whole-group runs.
 var followerProps = map[string]float64{"C01": 1.5, "C03": 2, "C05": 1.5, "C06": 1, "C07": 1.5, "C08": 1.5, "C09": 1.5, "C14": 1.5, "C15": 2, "C18": 2, "C19": 0.5}
 
+// nodeProps are the properties whose anchors include node.go (C05, C10, C20)
+// or whose subject the channel-based Node can disturb by the way it sequences
+// inputs, Ready and Advance (C08, C14, C15, C19); their checks add a batch of
+// E3 (nodesim) runs, which cost about four times a whole-group run.
+var nodeProps = map[string]float64{"C05": 0.12, "C08": 0.08, "C10": 0.15, "C14": 0.15, "C15": 0.1, "C19": 0.1, "C20": 0.2}
+
 // SpecFor returns the sampling specification of a property.
 func SpecFor(id string) PropSpec {
 	s := specFor(id)
 	if sh, ok := followerProps[id]; ok {
 		s.Profiles = append(s.Profiles, withName(followerProfile(), id+"-follower"))
+		s.Shares = append(s.Shares, sh)
+	}
+	if sh, ok := nodeProps[id]; ok {
+		s.Profiles = append(s.Profiles, withName(nodeProfile(), id+"-node"))
 		s.Shares = append(s.Shares, sh)
 	}
 	return s
